@@ -24,7 +24,8 @@ import (
 //                 (kubelet: created pods become Ready) the number of nodes without an
 //                 up-to-date Ready pod never grows and shrinks by the number of creations.
 func ZZ_C02_lemmas() {
-	n := zzNumNodes(3, 4)
+	// every cluster size from a single node up to the bound
+	n := 1 + zzConcSmall(nondet.Int("extraNodes", 0, zzNumNodes(2, 3)), zzNumNodes(2, 3))
 	cats := make([]int, n)
 	for i := range cats {
 		cats[i] = zzConcSmall(nondet.Int("cat"+strconv.Itoa(i), 0, zzNumCat-1), zzNumCat-1)
@@ -33,12 +34,17 @@ func ZZ_C02_lemmas() {
 	ru := &ds.Spec.Strategy.RollingUpdate
 	ru.MaxUnavailable = zzIntOrString("maxUnavailable", n+1)
 	nondet.Assume(ru.MaxUnavailable.IntVal >= 1)
-	ru.SlowStartAdditiveIncrease = zzIntOrString("increase", n+1)
-	nondet.Assume(ru.SlowStartAdditiveIncrease.IntVal >= 1)
-	maxPar := nondet.Int32("maxParallel", 1, int32(n+1))
+	maxPar := int32(n + 1)
+	sinceSec := 0
+	if nondet.Thorough() {
+		ru.SlowStartAdditiveIncrease = zzIntOrString("increase", n+1)
+		nondet.Assume(ru.SlowStartAdditiveIncrease.IntVal >= 1)
+		maxPar = nondet.Int32("maxParallel", 1, int32(n+1))
+		sinceSec = nondet.Int("activeSinceSec", 0, 600)
+	}
 	ru.MaxParallelPodCreation = &maxPar
 	rs := zzReplicaSet()
-	since := nondet.Base().Add(-time.Duration(nondet.Int("activeSinceSec", 0, 600)) * time.Second)
+	since := nondet.Base().Add(-time.Duration(sinceSec) * time.Second)
 	rs.Status.Conditions = []datadoghqv1alpha1.ExtendedDaemonSetReplicaSetCondition{{
 		Type: datadoghqv1alpha1.ConditionTypeActive, Status: corev1.ConditionTrue, LastTransitionTime: metav1.NewTime(since), LastUpdateTime: metav1.NewTime(since),
 	}}
@@ -95,6 +101,7 @@ func ZZ_C02_lemmas() {
 	nondet.Assert("C02.rank.non-increasing", after <= notConverged && after >= 0)
 	nondet.Observe("creates", len(res.PodsToCreate))
 	nondet.Observe("deletes", len(res.PodsToDelete))
+	nondet.Reach("C02.single-node-update", n == 1 && len(res.PodsToDelete) == 1)
 	nondet.Reach("C02.quiescent", quiescent)
 	nondet.Reach("C02.waits", !quiescent && len(res.PodsToCreate) == 0 && len(res.PodsToDelete) == 0)
 	nondet.Reach("C02.creates-and-deletes", len(res.PodsToCreate) > 0 && len(res.PodsToDelete) > 0)
